@@ -171,8 +171,21 @@ def deep_tree_binary(ctx, seed):
     A = r.integers(0, 100, (k, n)).astype(float); t = np.floor(A.sum(axis=1) / 2)
     case = {"deep_tree_seed": seed, "n_binaries": n}
     vals = {}
+    import json, subprocess, os
+    from harness import ecos_mip_case as EM
     for name, solver in (('default', None), ('ecos', eco_solver), ('gurobi', grb_solver), ('ortools', ort_solver)):
         ctx.search_cases += 1; ctx.evaluations += 1
+        if name == 'ecos':          # in a process of its own: a branch and bound that does not return must not stall the check
+            env = dict(os.environ, RSOME_REPO=C.REPO, PYTHONPATH=os.path.dirname(os.path.dirname(os.path.abspath(EM.__file__))))
+            try:
+                pr = subprocess.run(['/venv/bin/python', os.path.abspath(EM.__file__), json.dumps({"deep_tree_seed": seed})], capture_output=True, text=True, timeout=300, env=env)
+            except subprocess.TimeoutExpired:
+                ctx.hit('interface-does-not-return:ecos', {"timeout_s": 300}, dict(case, interface='ecos')); continue
+            out = [l for l in pr.stdout.splitlines() if l.startswith('value ')]
+            if not out:
+                ctx.hit('interface-raises:ecos', {"error": pr.stderr[-300:]}, case); continue
+            vals[name] = None if out[-1].split()[1] == 'none' else float(out[-1].split()[1])
+            continue
         try:
             with C.quiet():
                 m = lpm.Model(); x = m.dvar(n, vtype='B'); y = m.dvar(k)
